@@ -64,6 +64,17 @@ class C15:
                 seq = [(rng.choice([c for c in pool_c if c < 400]), t) for _, t in seq]
             cases.append("agg " + " ".join("%d %s" % (c, S(t)) for c, t in seq))
             dist.add("agg:random-len-%d" % n)
+        # long aggregates: counters, flags and sizes of every width (255 / 256 / 257, 65535 / 65536 / 65537 members), all
+        # negative, all without a code, alternating, one non-positive member at the very end / the very beginning
+        lens = [255, 256, 257, 511, 512, 513, 1024] + ([65535, 65536, 65537] if tier == "thorough" else [])
+        for n in lens:
+            shapes = {"all-negative": [(550, "")] * n, "all-codeless": [(65535, "")] * n,
+                      "alternating": [(550, "") if k % 2 else (226, "") for k in range(2 * n)],
+                      "negative-last": [(226, "")] * (n - 1) + [(550, "x")], "negative-first": [(421, "x")] + [(200, "")] * (n - 1),
+                      "all-positive": [(200, "")] * n}
+            for name, seq in shapes.items():
+                cases.append("agg " + " ".join("%d %s" % (c, S(t)) for c, t in seq))
+                dist.add("agg:long-%s" % name)
         return cases
 
     @staticmethod
@@ -325,6 +336,13 @@ class C06:
             cases.append("portcmd 4 %d %d %d %d %d" % (a, b, c, d, p))
             cases.append("eprtcmd 4 %d %d %d %d %d" % (a, b, c, d, p))
             dist.add("port/eprt:ipv4-random")
+        # the same formatters while the process-wide C++ locale groups digits (1,000): ports and address fields of every width
+        for p in [0, 9, 99, 999, 1000, 1001, 9999, 10000, 12345, 51210, 65535] + [rng.randrange(65536) for _ in range(300 if thorough else 60)]:
+            a, b, c, d = [rng.choice([0, 1, 10, 100, 127, 255]) for _ in range(4)]
+            cases.append("portcmd@grp 4 %d %d %d %d %d" % (a, b, c, d, p))
+            cases.append("eprtcmd@grp 4 %d %d %d %d %d" % (a, b, c, d, p))
+            cases.append("eprtcmd@grp 6 %s %d" % (S("::1"), p))
+            dist.add("port/eprt:under-a-digit-grouping-locale", 3)
         return cases
 
     @staticmethod
